@@ -163,6 +163,9 @@ def rule_crash(ctx):
                     resets.add(bb)
             elif ctx.is_cur(b.orig_place(pl)) and rv['k'] == 'aggr' and rv['ak'].get('variant') == 'None':
                 resets.add(bb)
+        for c in b.calls.values():
+            if c.qname in ('std::option::Option::take', 'std::mem::take') and c.args and ctx.is_cur(b.orig_operand(c.args[0])):
+                resets.add(c.bb)
         runs = [c for c in b.calls.values() if F.callee_body(c) is not None and reaches_exec(ctx, F.callee_body(c)) and not b.blocks[c.bb]['cleanup']]
         bad = [c for c in runs if b.must_before(c.bb, ctx.both(inf, lambda n: n in resets)) is not None]
         R.ob('U2-P1-entry-resets', b.path, bool(runs) and not bad, 'the executing-task field is cleared before the build starts (a value left by an aborted build cannot attribute dependencies to a dead task)'
